@@ -78,6 +78,8 @@ class TypeRegistry:
             self._registry.insert(0, (detector, f, priority))
             if priority:
                 self._registry.sort(key=lambda v: -v[2])
+            # a later registration must take effect for types that were already resolved
+            self._cache.clear()
             return f
 
         # before runtime, type will be compiled and applied
